@@ -219,11 +219,12 @@ def judge_c14(cid, parts, il, ml, cnt, machinery, samples, distinct):
         cnt["run_mismatch"] += 1
         observable = True
         same_spans = spans_only(runs[i]) == sp
-        if same_spans and drift is not None and drift["numbering_only"]:
+        numbering = drift is not None and drift["numbering_only"]
+        if numbering and (same_spans or tree_has(tree, "B")) and "D 1" not in tree:
             cls = KEY_NESTED_NUMBERING
             what = (f"`find all {lit}` on {_txt(t)!r} binds the groups as {runs[i][:160]} but a conventional engine numbers "
                     f"groups by their opening parenthesis: {arb[:160]}")
-        elif "D 1" in tree and drift is None and sfinds and runs[i] == sfinds[i]:
+        elif "D 1" in tree and ((drift is None and sfinds and runs[i] == sfinds[i]) or numbering):
             # the implementation does what the pattern AS WRITEN in vore means (Spec.findAll), and that differs from the
             # regular expression only through `not digit` succeeding on the empty read at the end of the text
             cls = KEY_NOTDIGIT_EOF
